@@ -33,6 +33,7 @@ type Kind struct {
 	Group, Version, Resource, Kind string
 	Namespaced                     bool
 	StatusSub                      bool
+	ScaleSub                       bool // discovery also lists <resource>/scale, after <resource>/status as apiextensions does (not served)
 }
 
 func (k *Kind) APIVersion() string {
@@ -180,6 +181,12 @@ func (s *Server) Discovery() []*metav1.APIResourceList {
 		if k.StatusSub {
 			l.APIResources = append(l.APIResources, metav1.APIResource{
 				Name: k.Resource + "/status", Kind: k.Kind, Namespaced: k.Namespaced, Group: k.Group, Version: k.Version,
+				Verbs: metav1.Verbs{"get", "update", "patch"},
+			})
+		}
+		if k.ScaleSub {
+			l.APIResources = append(l.APIResources, metav1.APIResource{
+				Name: k.Resource + "/scale", Kind: "Scale", Namespaced: k.Namespaced, Group: "autoscaling", Version: "v1",
 				Verbs: metav1.Verbs{"get", "update", "patch"},
 			})
 		}
